@@ -17,7 +17,7 @@ class Contract:
     """
     def __init__(self, key, params, returns=None, requires=None, ensures=None, raises=None, modifies=None,
                  touches=None, loops=None, defaults=None, variants=None, mod_globals=(), result=None,
-                 adapt=None, assumed=False, note='', array_sorts=None, axioms=None, gen=None, runtime=None, local_types=None, runtime_pre=None, defs=None, refines=None):
+                 adapt=None, assumed=False, note='', array_sorts=None, axioms=None, gen=None, runtime=None, local_types=None, runtime_pre=None, defs=None, refines=None, pure=False, allocates=True):
         self.key, self.params, self.returns = key, params, returns
         self._requires = requires or (lambda S, a: [])
         self._ensures = ensures or (lambda S0, S, a, r: [])
@@ -36,6 +36,8 @@ class Contract:
         self.axioms = axioms or (lambda: [])   # definitional axioms of spec functions used by this contract (assumed)
         self.local_types = local_types or {}   # checked type hints for locals bound to dict keys
         self.runtime_pre = runtime_pre
+        self.allocates = allocates and not pure    # False: the call allocates no heap object (checked at the definition)
+        self.pure = pure                       # no heap effect at all (nothing written, nothing allocated): checked as `no_allocation` + frame at the definition
         self.refines = refines                 # key of an abstract (base-class) contract whose ensures this contract's ensures must imply
         self.defs = defs or (lambda S, a: [])   # definitional axioms of spec functions over the pre-state (assumed at definition AND at call sites)
         self.gen = gen                         # custom input generator for the run-time harness
